@@ -1,5 +1,5 @@
 """Helpers shared by the rule modules."""
-from mtblcheck.facts import (walk, strip, kids, canon, base_decl, is_call, call_args, const_val,
+from mtblcheck.facts import (same_node, walk, strip, kids, canon, base_decl, is_call, call_args, const_val,
                              member_chain, BrokenAnalysis, eval_nodes)
 from mtblcheck import cfg as CFG
 from mtblcheck import ape as APE
